@@ -3,8 +3,9 @@
 
   Model (follows pandora/validation/validation.py:279-362, row by row; the vectorised gather /
   scatter over *distinct* column indices is written per pixel, with the same arithmetic):
-    valid-pixel selection, `col_right = rint(col + d)` (half to even; NaN casts to the most negative
-    integer), inside / outside split **with the conditions as written**, NaN -> inf,
+    valid-pixel selection, `col_right = col + rint(d)` (the disparity is rounded half to even, then the
+    column is added; NaN casts to the most negative integer), inside / outside split **with the
+    conditions as written**, NaN -> inf,
     `conf = |dR + dL|`, `invalid = conf > threshold`, the search over
     `arange(int(dmin), int(dmax) + 1)` for `rint(dR(i + d)) == -d` (inf outside the image),
     `+= OCCLUSION; += MISMATCH * comp; -= OCCLUSION * comp`, the outside branch, `mask_border`,
@@ -78,11 +79,12 @@ structure Params where
 /-- `np.arange(lo, hi + 1)` -/
 def arange (lo hi : Int) : List Int := (List.range (hi + 1 - lo).toNat).map (fun (k : Nat) => lo + (k : Int))
 
-/-- `np.rint(col + d).astype(int)`; the cast of NaN is the most negative integer: `none` -/
+/-- `col_left + np.rint(d).astype(int)`; the cast of NaN is the most negative integer (adding a column
+    index keeps it far below 0): `none` -/
 def colRight (c : Nat) (d : Val) : Option Int :=
   match d with
   | .nan => none
-  | .num q => some (rint ((c : Rat) + q))
+  | .num q => some ((c : Int) + rint q)
 
 /-- `(col_right >= 0) & (col_right < nb_col)` -/
 def insideRight (ncol : Nat) (q : Option Int) : Bool :=
@@ -228,11 +230,11 @@ def consistentAt (P : Params) (dL dR : List Val) (c : Nat) (q : Int) : Bool :=
   | some (.fin x) => decide (x ≤ P.threshold)
   | _ => false
 
-/-- candidates for `p + round(dL(p))`: the integers nearest to `p + dL(p)`; none when `dL(p)` is NaN -/
+/-- candidates for `p + round(dL(p))`: `p` plus an integer nearest to `dL(p)`; none when `dL(p)` is NaN -/
 def correspondents (dL : List Val) (c : Nat) : List Int :=
   match dL.getD c .nan with
   | .nan => []
-  | .num d => nearestInts ((c : Rat) + d)
+  | .num d => (nearestInts d).map (fun n => (c : Int) + n)
 
 /-- consistent at the correspondent `q` (`none`: no correspondent at all) -/
 def consistentOpt (P : Params) (dL dR : List Val) (c : Nat) : Option Int → Bool
@@ -291,8 +293,8 @@ def triggerOf (P : Params) (border : Bool) (dL dR : List Val) (c : Nat) (flag : 
     match correspondents dL c with
     | [] => "nan_disparity_on_valid_pixel"
     | qs =>
-      -- on an exact tie numpy takes the even neighbour: the situation is named after that one
-      let qs' := if qs.length > 1 then qs.filter (fun q => q % 2 == 0) else qs
+      -- on an exact tie numpy rounds the disparity to the even neighbour: the situation is named after that one
+      let qs' := if qs.length > 1 then qs.filter (fun q => (q - (c : Int)) % 2 == 0) else qs
       if qs'.all (fun q => (cell dR q).isNone) then "correspondent_outside_right_image"
       else if qs.length > 1 then "half_integer_tie"
       else if qs.any (fun q => consistentAt P dL dR c q) then "consistent"
